@@ -1,0 +1,48 @@
+//go:build verif
+
+package pushers
+
+// Contracts for event filtering and token decoration (property C06), checked by /verif/govc.
+// Comment-only file: it adds nothing to any build.
+//
+// Delivery is observed through the ghost call log of Channel.Send (nsends, sendch, sendev: which
+// channel value was asked to send which event), see the assumed contract of pushers.Channel.Send.
+//
+// A filter function is an unknown pure predicate of the event.
+//@ uf admits(FilterFunc, *sync.Map) bool
+//@ functype FilterFunc
+//@   pure
+//@   ensures result == admits(fn, a0.sm)
+//
+// filterChannel: the inner channel is asked exactly once iff the filter admits the event, with
+// that very event; otherwise nothing is sent anywhere.
+//@ func (filterChannel).Send
+//@   physical 0 <= nsends && nsends < 1<<49
+//@   ensures [admit] admits(mc.FilterFn, e.sm) ==> nsends == old(nsends) + 1 && sendch[old(nsends)] == mc.Channel && sendev[old(nsends)] == e.sm
+//@   ensures [reject] !admits(mc.FilterFn, e.sm) ==> nsends == old(nsends)
+//@   ensures [log-kept] forall k int :: 0 <= k && k < old(nsends) ==> sendch[k] == old(sendch[k]) && sendev[k] == old(sendev[k])
+//@   modifies ghost(sent), nsends, sendch, sendev
+//
+// The regular-expression filter admits an event iff ANY of its expressions matches the event's
+// value of the field (a missing or non-string value is matched as the empty string).
+//@ func RegexFilterFunc$1
+//@   ensures [any-of] result <==> (exists j int :: 0 <= j && j < len(matchers) && rxmatch(matchers[j], fieldOf(e, field)))
+//@   modifies nothing
+//@   loop 1: invariant forall j int :: 0 <= j && j <= rangeindex ==> !rxmatch(matchers[j], fieldOf(e, field))
+//@ spec fieldOf(e event.Event, f string) string = ite(e.sm.ghas[any(f)] && typeis(e.sm.gstore[any(f)], string), unbox(e.sm.gstore[any(f)], string), "")
+//
+// tokenChannel: the inner channel is asked exactly once, with the same event, which now carries
+// the channel's token under the key "token" (all other keys untouched).
+//@ func (tokenChannel).Send
+//@   physical 0 <= nsends && nsends < 1<<49
+//@   ensures [once] nsends == old(nsends) + 1 && sendch[old(nsends)] == mc.Channel && sendev[old(nsends)] == e.sm
+//@   ensures [token] e.sm.ghas[any("token")] && e.sm.gstore[any("token")] == any(mc.Token)
+//@   ensures [others] forall k string :: k != "token" ==> e.sm.ghas[any(k)] == old(e.sm.ghas[any(k)]) && e.sm.gstore[any(k)] == old(e.sm.gstore[any(k)])
+//@   modifies ghost(sent), nsends, sendch, sendev, ghost(ghas), ghost(gstore)
+//
+//@ func FilterChannel
+//@   ensures typeis(result, filterChannel) && unbox(result, filterChannel).Channel == channel
+//@   modifies nothing
+//@ func TokenChannel
+//@   ensures typeis(result, tokenChannel) && unbox(result, tokenChannel).Channel == channel && unbox(result, tokenChannel).Token == token
+//@   modifies nothing
